@@ -433,8 +433,10 @@ class Printer:
             if kind == 'own':
                 if pos < len(out) and out[pos].startswith('\x02'):
                     continue
-                out[pos:pos] = [ln for ln in text.split('\n')]
-            elif pos < len(out) and out[pos].strip() and not out[pos].endswith('\x01') \
+                parts = text.split('\n')
+                cont = '\x02' if text.startswith('/*') else ''
+                out[pos:pos] = [parts[0]] + [cont + ln for ln in parts[1:]]
+            elif pos < len(out) and out[pos].strip() and not out[pos].endswith('\x01') and not out[pos].startswith('\x02') \
                     and not out[pos].lstrip('\x02').lstrip().startswith(('//', '/*')) and not out[pos].endswith('*/'):
                 out[pos] += ' ' + (text if '\n' not in text else text.split('\n')[0] + (' */' if text.startswith('/*') else '')) + '\x01'
         out = [ln.replace('\x01', '').replace('\x02', '') for ln in out]
